@@ -90,8 +90,20 @@ pub fn strategy() -> BoxedStrategy<Case> {
                 match act {
                     0 => steps.push(Step::Publish(PubSpec::simple(0, 2, 2, *r as u8))),
                     1 => steps.push(Step::Publish(PubSpec::simple(1, 2, 2, *r as u8))),
-                    2 => steps.push(Step::DeliverAt { delay_ms: (ms / 2) as u32, qos: 1, payload: PayloadSpec::new(2, *r as u8) }),
-                    3 => steps.push(Step::DeliverAt { delay_ms: ms as u32, qos: 0, payload: PayloadSpec::new(2, *r as u8) }),
+                    2 => steps.push(Step::DeliverAt {
+                        delay_ms: (ms / 2) as u32,
+                        qos: 1,
+                        payload: PayloadSpec::new(2, *r as u8),
+                        // sometimes the packet arrives in two parts: the tail a little later, after
+                        // the next deadlines, or never (the peer stalls in the middle of a packet)
+                        split: match *r % 11 {
+                            0 => Some((1 + (*r as u8 / 11) % 6, 300)),
+                            1 => Some((1 + (*r as u8 / 11) % 6, (2 * unit_ms + 900) as u32)),
+                            2 => Some((1 + (*r as u8 / 11) % 6, u32::MAX)),
+                            _ => None,
+                        },
+                    }),
+                    3 => steps.push(Step::DeliverAt { delay_ms: ms as u32, qos: 0, payload: PayloadSpec::new(2, *r as u8), split: if *r % 13 == 5 { Some((2, 700)) } else { None } }),
                     // requests that put nothing on the wire must not count as keep-alive traffic:
                     // a subscribe / unsubscribe (queued when the window is full, see `paced`) ...
                     4 => steps.push(Step::Subscribe {
